@@ -18,7 +18,11 @@ import (
 )
 
 func main() {
-	dir := os.Args[1]
+	dir := os.Args[len(os.Args)-1]
+	mode := "rename"
+	if len(os.Args) > 2 {
+		mode = strings.TrimPrefix(os.Args[1], "-")
+	}
 	os.Setenv("GOFLAGS", "-mod=mod")
 	os.Setenv("GOPROXY", "off")
 	fset := token.NewFileSet()
@@ -52,7 +56,38 @@ func main() {
 				continue
 			}
 			// struct literal keys and embedded shorthand are not Uses of locals; only rename idents whose object is local
+			if mode == "swapeq" {
+				// a == b  ->  b == a ; a != b -> b != a (behaviour preserving)
+				ast.Inspect(f, func(nd ast.Node) bool {
+					if be, ok := nd.(*ast.BinaryExpr); ok && (be.Op == token.EQL || be.Op == token.NEQ) {
+						be.X, be.Y = be.Y, be.X
+						n++
+					}
+					return true
+				})
+			}
+			if mode == "invertif" {
+				// if c { A } else { B }  ->  if !(c) { B } else { A } (behaviour preserving;
+				// only plain else blocks, and only when A does not declare labels)
+				ast.Inspect(f, func(nd ast.Node) bool {
+					ifs, ok := nd.(*ast.IfStmt)
+					if !ok {
+						return true
+					}
+					els, ok := ifs.Else.(*ast.BlockStmt)
+					if !ok {
+						return true
+					}
+					ifs.Cond = &ast.UnaryExpr{Op: token.NOT, X: &ast.ParenExpr{X: ifs.Cond}}
+					ifs.Body, ifs.Else = els, ifs.Body
+					n++
+					return true
+				})
+			}
 			ast.Inspect(f, func(nd ast.Node) bool {
+				if mode != "rename" {
+					return false
+				}
 				if ts, ok := nd.(*ast.TypeSwitchStmt); ok {
 					// the symbolic variable of `switch v := x.(type)` has no Defs entry
 					if as, ok := ts.Assign.(*ast.AssignStmt); ok && len(as.Lhs) == 1 {
